@@ -6,7 +6,11 @@
 //!   commits   list of (height kind sets); height = () | (h); kind 0 StorageChanges::Changes (one set),
 //!             kind 1 StorageChanges::ChangesList(sets); set = ((col ((key op) ...)) ...);
 //!             key = (bytes); op = (0) Remove | (1 (bytes)) Insert; col = 0 Coins, 1 Transactions,
-//!             2 ContractsState (this column has a 32-byte prefix extractor in RocksDB)
+//!             2 ContractsState: this column has a 32-byte prefix extractor in RocksDB; a prefix shorter than
+//!             the extractor is out of its domain (RocksDB then reads past the key: empty results, crashes),
+//!             and the real tables only use 32-byte prefixes there.  The harness therefore stores every byte of
+//!             a key / prefix / start of column 2 as a run of 32 equal bytes (order- and prefix-preserving) and
+//!             contracts the returned keys again; the generator never asks for the empty prefix in column 2
 //!   queries   list of (col prefix start dir kv); prefix/start = () | ((bytes)); dir 0 Forward 1 Reverse;
 //!             kv 0 iter_store_keys, 1 iter_store
 //! C11 output: one entry per backend: (tags contents gets results)
@@ -72,6 +76,26 @@ fn column(c: u64) -> Column {
     COLS[c as usize]
 }
 
+const WIDE: usize = 32;
+
+/// column 2: every byte becomes a run of 32 equal bytes
+fn enc(col: u64, k: &[u8]) -> Vec<u8> {
+    if col == 2 {
+        k.iter().flat_map(|b| std::iter::repeat(*b).take(WIDE)).collect()
+    } else {
+        k.to_vec()
+    }
+}
+
+/// inverse of `enc`; a key that is not a sequence of runs is returned as it is
+fn dec(col: u64, k: &[u8]) -> Vec<u8> {
+    if col == 2 && k.len() % WIDE == 0 && k.chunks(WIDE).all(|c| c.iter().all(|b| *b == c[0])) {
+        k.chunks(WIDE).map(|c| c[0]).collect()
+    } else {
+        k.to_vec()
+    }
+}
+
 fn err_tag(e: &StorageError) -> i128 {
     let d = format!("{e:?}");
     if d.starts_with("DatabaseError(ConflictingChanges") {
@@ -97,11 +121,12 @@ fn set_of(t: &T) -> Changes {
     let mut changes = Changes::default();
     for colset in t.as_l() {
         let f = colset.as_l();
-        let col = column(f[0].as_u64()) as u32;
+        let cid = f[0].as_u64();
+        let col = column(cid) as u32;
         let mut tree: BTreeMap<ReferenceBytesKey, WriteOperation> = BTreeMap::new();
         for e in f[1].as_l() {
             let e = e.as_l();
-            let key: ReferenceBytesKey = e[0].as_bytes().into();
+            let key: ReferenceBytesKey = enc(cid, &e[0].as_bytes()).into();
             let op = e[1].as_l();
             let op = match op[0].as_i() {
                 0 => WriteOperation::Remove,
@@ -112,6 +137,14 @@ fn set_of(t: &T) -> Changes {
         changes.insert(col, tree);
     }
     changes
+}
+
+/// the keys of one column of a change set in BTreeMap order (sorted, without repetitions)
+fn sorted_keys(entries: &T) -> Vec<Vec<u8>> {
+    let mut keys: Vec<Vec<u8>> = entries.as_l().iter().map(|e| e.as_l()[0].as_bytes()).collect();
+    keys.sort();
+    keys.dedup();
+    keys
 }
 
 fn opt_bytes(t: &T) -> Option<Vec<u8>> {
@@ -146,14 +179,18 @@ impl Backend {
             Backend::Hist(s) => s.get(key, col),
         }
     }
-    fn iter(&self, col: Column, p: Option<&[u8]>, s: Option<&[u8]>, d: IterDirection, kv: bool) -> T {
+    fn iter(&self, cid: u64, p: Option<&[u8]>, s: Option<&[u8]>, d: IterDirection, kv: bool) -> T {
+        let col = column(cid);
+        let p = p.map(|p| enc(cid, p));
+        let s = s.map(|s| enc(cid, s));
+        let (p, s) = (p.as_deref(), s.as_deref());
         macro_rules! go {
             ($st:expr) => {
                 if kv {
                     T::l($st
                         .iter_store(col, p, s, d)
                         .map(|r| match r {
-                            Ok((k, v)) => T::l(vec![T::bytes(&k), T::bytes(&v)]),
+                            Ok((k, v)) => T::l(vec![T::bytes(&dec(cid, &k)), T::bytes(&v)]),
                             Err(_) => T::i(-9),
                         })
                         .collect())
@@ -161,7 +198,7 @@ impl Backend {
                     T::l($st
                         .iter_store_keys(col, p, s, d)
                         .map(|r| match r {
-                            Ok(k) => T::bytes(&k),
+                            Ok(k) => T::bytes(&dec(cid, &k)),
                             Err(_) => T::i(-9),
                         })
                         .collect())
@@ -203,8 +240,8 @@ fn run_c11(input: &T) -> T {
                 for s in sets {
                     for colset in s.as_l() {
                         let cs = colset.as_l();
-                        for e in cs[1].as_l() {
-                            touched.push((cs[0].as_u64(), e.as_l()[0].as_bytes()));
+                        for k in sorted_keys(&cs[1]) {
+                            touched.push((cs[0].as_u64(), k));
                         }
                     }
                 }
@@ -219,11 +256,11 @@ fn run_c11(input: &T) -> T {
                 }));
             }
             let contents: Vec<T> = (0..3u64)
-                .map(|c| backend.iter(column(c), None, None, IterDirection::Forward, true))
+                .map(|c| backend.iter(c, None, None, IterDirection::Forward, true))
                 .collect();
             let gets: Vec<T> = touched
                 .iter()
-                .map(|(c, k)| match backend.get(k, column(*c)) {
+                .map(|(c, k)| match backend.get(&enc(*c, k), column(*c)) {
                     Ok(v) => val_t(v),
                     Err(_) => T::i(-9),
                 })
@@ -235,7 +272,7 @@ fn run_c11(input: &T) -> T {
                     let p = opt_bytes(&q[1]);
                     let s = opt_bytes(&q[2]);
                     let d = if q[3].as_i() == 0 { IterDirection::Forward } else { IterDirection::Reverse };
-                    backend.iter(column(q[0].as_u64()), p.as_deref(), s.as_deref(), d, q[4].as_bool())
+                    backend.iter(q[0].as_u64(), p.as_deref(), s.as_deref(), d, q[4].as_bool())
                 })
                 .collect();
             drop(backend);
@@ -260,8 +297,8 @@ fn universe(ops: &[T]) -> Vec<(u64, Vec<u8>)> {
         }
         for colset in f[1].as_l() {
             let cs = colset.as_l();
-            for e in cs[1].as_l() {
-                let item = (cs[0].as_u64(), e.as_l()[0].as_bytes());
+            for k in sorted_keys(&cs[1]) {
+                let item = (cs[0].as_u64(), k);
                 if !u.contains(&item) {
                     u.push(item);
                 }
@@ -594,6 +631,9 @@ fn gen_c11_case(rng: &mut Rng, tier: &str, idx: u64) -> T {
         for d in 0..2u64 {
             push(&mut queries, col, None, None, d);
             for p in &prefixes {
+                if col == 2 && p.is_empty() {
+                    continue;
+                }
                 push(&mut queries, col, Some(p), None, d);
             }
         }
@@ -619,10 +659,15 @@ fn gen_c11_case(rng: &mut Rng, tier: &str, idx: u64) -> T {
                     }
                 } else {
                     for l in 0..=s.len().min(2) {
+                        if col == 2 && l == 0 {
+                            continue;
+                        }
                         push(&mut queries, col, Some(&s[..l]), Some(s), d);
                     }
                     let p = rng.pick(&prefixes).clone();
-                    push(&mut queries, col, Some(&p), Some(s), d);
+                    if !(col == 2 && p.is_empty()) {
+                        push(&mut queries, col, Some(&p), Some(s), d);
+                    }
                 }
             }
         }
